@@ -27,8 +27,8 @@ import (
 func init() {
 	sb.Register("chan", chanHandler)
 	sb.Assume("C09",
-		"the controlled scheduler owns the decision points: goroutines park before every operation and at the verif-tag hook points between the closed test and the chan operation in Send / Close; exactly one parked goroutine is released per step",
-		"a released goroutine that does not park again within the step timeout is taken to be blocked inside a real chan operation; the timeout only shapes which schedules are visited, verdicts are history invariants checked at quiescence",
+		"the controlled scheduler owns the decision points: goroutines park before every operation and at the verif-tag hook points between the state snapshot / closed test and the chan operation in Send, Receive and Close; exactly one parked goroutine is released per step",
+		"quiescence after each release is read from the runtime: every scenario goroutine is parked at a gate, finished, or in a blocked state (chan / select / mutex wait) according to runtime.Stack, and no park event is in flight; no timing assumption. A missing quiescence within 10 s is an infrastructure result. Verdicts are history invariants checked at quiescence",
 		"at the end of a schedule the harness closes the channel (if the scenario did not), drains it and joins every goroutine; a goroutine that cannot be joined is reported as stuck",
 		"ordering is judged per consumer (always sound) and across steps of the controlled schedule",
 		"the script-level stress engine (spawn producers/consumers in a -race build, GOMAXPROCS varied) only reports process death, data races naming std/channel, or a wrong multiset",
